@@ -1,6 +1,44 @@
 package bt
 
-import "encoding/binary"
+import (
+	"encoding/binary"
+	"io"
+)
+
+// maxReadChunk bounds how much is allocated ahead of the data when reading a
+// length-prefixed field from an untrusted stream.
+const maxReadChunk = 64 * 1024
+
+// readBytes reads exactly n bytes from r. The buffer grows as data arrives
+// instead of being sized up front from n, which comes from the (untrusted)
+// stream: a prefix claiming gigabytes followed by no data must fail cheaply.
+// Like io.ReadFull it returns the bytes read so far together with io.EOF or
+// io.ErrUnexpectedEOF when the stream ends early.
+func readBytes(r io.Reader, n uint64) ([]byte, error) {
+	if n <= maxReadChunk {
+		buf := make([]byte, n)
+		k, err := io.ReadFull(r, buf)
+		return buf[:k], err
+	}
+
+	buf := make([]byte, 0, maxReadChunk)
+	for uint64(len(buf)) < n {
+		want := n - uint64(len(buf))
+		if want > maxReadChunk {
+			want = maxReadChunk
+		}
+		start := len(buf)
+		buf = append(buf, make([]byte, want)...)
+		k, err := io.ReadFull(r, buf[start:])
+		if err != nil {
+			if err == io.EOF && start > 0 {
+				err = io.ErrUnexpectedEOF
+			}
+			return buf[:start+k], err
+		}
+	}
+	return buf, nil
+}
 
 // ReverseBytes reverses the bytes (little endian/big endian).
 // This is used when computing merkle trees in Bitcoin, for example.
